@@ -243,6 +243,7 @@ fn one_case(ctx: &Ctx, cfg: &Cfg, ops: &[Op]) {
         let (first2, obs2, _) = drive(cfg, ops);
         if first2 != first || obs2 != obs {
             ctx.fail("C34", "seed", format!("two timers with seed {} and the same history observed differently", cfg.seed), replay.clone());
+            ctx.fail("C31", "timer_seed", format!("two timers with seed {} and the same history (construction, range changes, polls) observed differently", cfg.seed), replay.clone());
         }
         let fires = obs.iter().filter(|o| matches!(o, Obs::Ok(Some(_), _, _))).count();
         ctx.stat("polls", ops.iter().filter(|o| **o == Op::Poll).count() as i64);
@@ -311,6 +312,7 @@ mod insim {
             }
             if catch(|| run(seed, lo, hi, true, steps)).flatten().as_ref() != Some(&a) {
                 ctx.fail("C34", "sim_seed", format!("in the simulator, two runs with timer seed {seed} differ"), replay.clone());
+                ctx.fail("C31", "timer_seed", format!("in the simulator, two runs with timer seed {seed} differ"), replay.clone());
             }
             if catch(|| run(seed, lo, hi, false, 100)).flatten().is_none_or(|d| d.iter().any(|x| *x)) {
                 ctx.fail("C34", "sim_disabled", format!("in the simulator, a disabled timer {lo}..={hi} interrupted"), replay.clone());
